@@ -1739,6 +1739,13 @@ func makePointerArshaler(t reflect.Type) *arshaler {
 				return newMarshalErrorBefore(enc, t, err)
 			}
 			defer leavePointer(&xe.SeenPointers, va.Value)
+		} else if k := t.Elem().Kind(); k == reflect.Pointer || k == reflect.Interface {
+			// A cycle made up only of pointers and interfaces never increases
+			// the JSON nesting depth, so always check pointers to such types.
+			if err := visitPointer(&xe.SeenPointers, va.Value); err != nil {
+				return newMarshalErrorBefore(enc, t, err)
+			}
+			defer leavePointer(&xe.SeenPointers, va.Value)
 		}
 
 		// NOTE: Struct.Format is forwarded to underlying marshal.
